@@ -333,38 +333,99 @@ func (vc *VC) oblige(name, kind string, props []string, guard, goal, src string)
 	if n := vc.oblNames[name]; n > 1 {
 		name = fmt.Sprintf("%s@%d", name, n)
 	}
+	// Quantified conjuncts of the goal that were established earlier (same formula up to bound-variable
+	// numbering) are offered to the solver by name; afterwards every such conjunct gets a name of its own.
+	if vc.named == nil {
+		vc.named = map[string]string{}
+	}
+	conj := splitAnd(goal)
+	var parts []string
+	for _, c := range conj {
+		if len(c) > 200 && strings.Contains(c, "(forall") {
+			if p, ok := vc.named[normFormula(c)]; ok {
+				parts = append(parts, "(or "+p+" "+c+")")
+				continue
+			}
+		}
+		parts = append(parts, c)
+	}
 	qgoal := goal
-	norm := ""
-	if len(goal) > 200 && strings.Contains(goal, "(forall") {
-		norm = bvarRe.ReplaceAllString(goal, "")
-		if vc.named == nil {
-			vc.named = map[string]string{}
-		}
-		if p, ok := vc.named[norm]; ok {
-			// the same formula was established earlier (possibly on this very path): let the solver use it by name
-			qgoal = "(or " + p + " " + goal + ")"
-		}
+	if len(parts) == 1 {
+		qgoal = parts[0]
+	} else if len(parts) > 1 {
+		qgoal = "(and " + strings.Join(parts, " ") + ")"
 	}
 	o := &Obligation{Name: name, Func: vc.unit, Kind: kind, Props: props, Prefix: len(vc.lines), Guard: guard, Goal: qgoal, Src: src, vc: vc, Block: vc.curBlock, Scope: vc.curScope + 1, Extra: append([]int{}, vc.extraScopes...)}
 	vc.obls = append(vc.obls, o)
-	if norm != "" {
-		if _, ok := vc.named[norm]; !ok {
-			p := vc.fresh("P", "Bool")
-			// the declaration must be visible to every later query, not only to those that reach this block
-			vc.lineTag[len(vc.lineTag)-1] = -1
-			vc.emit("(assert (=> " + p + " " + goal + "))")
-			vc.named[norm] = p
+	plain := true
+	for _, c := range conj {
+		if len(c) > 200 && strings.Contains(c, "(forall") {
+			norm := normFormula(c)
+			if _, ok := vc.named[norm]; !ok {
+				p := vc.fresh("P", "Bool")
+				// the declaration must be visible to every later query, not only to those that reach this block
+				vc.lineTag[len(vc.lineTag)-1] = -1
+				vc.emit("(assert (=> " + p + " " + c + "))")
+				vc.named[norm] = p
+			}
+			vc.assumeG(guard, vc.named[norm])
+			if guard == "" || guard == "true" {
+				vc.assume(c)
+			}
+			plain = false
 		}
-		vc.assumeG(guard, vc.named[norm])
-		if guard == "" || guard == "true" {
-			vc.assume(goal)
-		}
-		return o
 	}
-	vc.assumeG(guard, goal)
+	if plain || len(conj) > 1 {
+		vc.assumeG(guard, goal)
+	}
 	return o
 }
 
+func normFormula(s string) string {
+	return qidRe.ReplaceAllString(bvarRe.ReplaceAllString(s, ""), "")
+}
+
+// splitAnd flattens the top-level conjunction of an s-expression
+func splitAnd(s string) []string {
+	s = strings.TrimSpace(s)
+	if !strings.HasPrefix(s, "(and ") || !strings.HasSuffix(s, ")") {
+		return []string{s}
+	}
+	body := s[5 : len(s)-1]
+	var out []string
+	depth, start := 0, -1
+	for i := 0; i < len(body); i++ {
+		ch := body[i]
+		switch {
+		case ch == '(':
+			if depth == 0 && start < 0 {
+				start = i
+			}
+			depth++
+		case ch == ')':
+			depth--
+			if depth == 0 && start >= 0 {
+				out = append(out, splitAnd(body[start:i+1])...)
+				start = -1
+			}
+		case ch == ' ' || ch == '\n':
+			if depth == 0 && start >= 0 {
+				out = append(out, body[start:i])
+				start = -1
+			}
+		default:
+			if depth == 0 && start < 0 {
+				start = i
+			}
+		}
+	}
+	if start >= 0 {
+		out = append(out, body[start:])
+	}
+	return out
+}
+
+var qidRe = regexp.MustCompile(`:qid [^ )]+`)
 var bvarRe = regexp.MustCompile(`![q][0-9]+`)
 
 // ---------------------------------------------------------------------------
@@ -466,6 +527,11 @@ func (vc *VC) heapTypeAxiom(name, term string, prelude bool, allocTerm string) {
 		// the number of keys of a map is never negative
 		ms := strings.TrimSuffix(strings.TrimPrefix(vc.heapSort[name], "(Array Int "), ")")
 		ax := "(assert (forall ((r Int)) (! (>= (" + ms + "__card (select " + term + " r)) 0) :pattern ((select " + term + " r)))))"
+		// the nil map (reference 0) is empty in every state: it is never written (a write panics)
+		if ks := vc.S.mapKeySort[ms]; ks != "" && os.Getenv("GOVC_NONILMAP") == "" {
+			ax += "\n(assert (= (" + ms + "__card (select " + term + " 0)) 0))"
+			ax += "\n(assert (forall ((k " + ks + ")) (! (not (select (" + ms + "__dom (select " + term + " 0)) k)) :pattern ((select (" + ms + "__dom (select " + term + " 0)) k)) :qid nilmap)))"
+		}
 		if prelude {
 			vc.epochDecls = append(vc.epochDecls, ax)
 		} else {
